@@ -137,3 +137,20 @@ Example C08_chain_nonvacuous :
    fst (fst (V.Model.TryRoute.try_route "ev" (String.eqb "ts") true dims ["ev.rev"%string] None true
               (V.Proofs.C08_chain_proofs.serves_of is_granularity_compatible p' ["ts"%string; "ts"%string] [(true, true)] None (V.Model.TryRoute.grans_of dims [])))) = false).
 Proof. exact V.Proofs.C08_chain_proofs.chain_nonvacuous. Qed.
+
+Require V.Model.Routed V.Gen.Routed_gen V.Proofs.C08_routed_proofs.
+(* THE ROUTED STATEMENT, regenerated: Gen/Routed_gen.v holds what SQLGenerator._generate_from_preaggregation builds on 198 scripted queries (rollups with and without a time dimension;
+   no dimension, plain dimensions, the rollup's time dimension at its own and at coarser granularities, two granularities at once, another dimension asked for at a granularity;
+   sum / count / avg (with and without a count measure) / min / max / other aggregations / names the model does not have; filters; ORDER BY, LIMIT incl. 0, OFFSET incl. 0), extracted from
+   generator.py on every run by executing the method's AST (fail closed, validated against CPython).  Model/Routed.routed_build builds the same statement on every row; for ANY query
+   it groups by every requested dimension and selects one item per requested dimension, in request order; a routed count is COALESCE(SUM(<count>_raw), 0). *)
+Theorem C08_routed_statement_table : forallb V.Model.Routed.routed_row_ok V.Gen.Routed_gen.routed_rows = true.
+Proof. exact V.Proofs.C08_routed_proofs.routed_table_ok. Qed.
+Theorem C08_routed_dimension_items : forall td gran dims mets filters order_by limit offset ac,
+  let '(sel, _, grp, _, _, _) := V.Model.Routed.routed_build (td, gran, dims, mets, filters, order_by, limit, offset, ac) in
+  firstn (length dims) sel = map (V.Model.Routed.dim_item td gran) dims /\
+  grp = match dims with [] => None | _ => Some (String.concat ", " (map V.Model.MultiFactShape.nat_s (seq 1 (length dims)))) end.
+Proof. exact V.Proofs.C08_routed_proofs.routed_dimension_items. Qed.
+Theorem C08_routed_count_never_null : forall ac ref,
+  V.Model.Routed.metric_item ac (ref, Some "count"%string) = [("COALESCE(SUM(" ++ (V.Model.TryRoute.strip_model ref ++ "_raw") ++ "), 0) as " ++ V.Model.TryRoute.strip_model ref)%string].
+Proof. exact V.Proofs.C08_routed_proofs.routed_count_coalesced. Qed.
